@@ -1,6 +1,116 @@
 package crash
 
-import "os"
+import (
+	"encoding/json"
+	"fmt"
+	"os"
+	"sort"
+	"time"
 
-// workloadBG: background-sync mode (SyncWAL loop + concurrent writers); filled in for C05/C35.
-func workloadBG(in *Instance, h *History, ack *os.File) int { return 2 }
+	"github.com/alpacahq/marketstore/v4/utils/io"
+)
+
+// workloadBG: the instance runs the REAL WAL writer goroutine (SyncWAL) as internal/di does with
+// BackgroundSync=true.  One writer issues the requests one after the other: WriteCSM queues its commands and
+// RequestFlush hands the flush to the loop goroutine.  The WAL timer fires every WalMs (a timer flush with an
+// empty queue only advances the TG id; one that finds queued commands flushes them before the writer's own
+// request arrives, which then finds nothing); the primary timer is far away, so checkpoints come only from the
+// final Shutdown() (the loop's shutdown branch: FlushToWAL; CreateCheckpoint).
+func workloadBG(in *Instance, h *History, ack *os.File) int {
+	walMs, primMs, rot := h.WalMs, h.PrimaryMs, h.Rotate
+	if walMs <= 0 {
+		walMs = 200
+	}
+	if primMs <= 0 {
+		primMs = 3600 * 1000
+	}
+	if rot <= 0 {
+		rot = 1000
+	}
+	if err := precreate(in, h); err != nil {
+		fmt.Fprintln(os.Stderr, "precreate:", err)
+		return 4
+	}
+	in.StartBackground(time.Duration(walMs)*time.Millisecond, time.Duration(primMs)*time.Millisecond, rot)
+	time.Sleep(5 * time.Millisecond) // let the loop set haveWALWriter
+	ackf := ack.Name()
+	for i := range h.Steps {
+		st := &h.Steps[i]
+		switch st.Kind {
+		case "write":
+			if err := in.RunStep(h, st); err != nil {
+				ack.WriteString(fmt.Sprintf("NAK %d\n", i))
+				continue
+			}
+			ack.WriteString(fmt.Sprintf("ACK %d\n", i))
+			if h.PauseMs > 0 {
+				time.Sleep(time.Duration(h.PauseMs) * time.Millisecond)
+			}
+		case "shutdown":
+			pre := QueryAll(in.Cat)
+			b, _ := json.Marshal(pre)
+			os.WriteFile(ackf+".pre", b, 0o644)
+			in.WAL.Shutdown()
+		default:
+			// checkpoints and rotations are timer-driven in this mode
+		}
+	}
+	return 0
+}
+
+// precreate creates every bucket and year file of the history through the catalog, before the loop starts:
+// the writer's catalog calls would otherwise interleave with the loop goroutine's calls at system-call
+// granularity (two goroutines), which the model's atomic steps do not describe.  The calls are the same ones
+// WriteCSM issues on demand (AddTimeBucket, GetSubDirectoryAndAddFile).
+func precreate(in *Instance, h *History) error {
+	for bi := range h.Buckets {
+		b := &h.Buckets[bi]
+		years := map[int]bool{}
+		for si := range h.Steps {
+			for _, bt := range h.Steps[si].Batches {
+				if bt.Bucket != bi {
+					continue
+				}
+				for _, r := range bt.Rows {
+					years[time.Unix(r.Epoch, int64(r.Nanos)).UTC().Year()] = true
+				}
+			}
+		}
+		var ys []int
+		for y := range years {
+			ys = append(ys, y)
+		}
+		sort.Ints(ys)
+		if len(ys) == 0 {
+			continue
+		}
+		// the same shapes WriteCSM derives from the ColumnSeries
+		st := Step{Kind: "write", Batches: []Batch{{Bucket: bi, Rows: []Row{{Epoch: 0, Vals: make([]byte, b.ValLen())}}}}}
+		csm, variable := h.CSM(&st)
+		var first *io.TimeBucketInfo
+		for tbk, cs := range csm {
+			tbk := tbk
+			if variable {
+				cs.Remove("Nanoseconds")
+			}
+			tf, err := tbk.GetTimeFrame()
+			if err != nil {
+				return err
+			}
+			rt := io.FIXED
+			if variable {
+				rt = io.VARIABLE
+			}
+			first = io.NewTimeBucketInfo(*tf, tbk.GetPathToYearFiles(in.Cat.GetPath()), "Created By Writer", int16(ys[0]), cs.GetDataShapes(), rt)
+			if err := in.Cat.AddTimeBucket(&tbk, first); err != nil {
+				return err
+			}
+		}
+		for _, y := range ys[1:] {
+			if _, err := in.Cat.GetSubDirectoryAndAddFile(first.Path, int16(y)); err != nil {
+				return err
+			}
+		}
+	}
+	return nil
+}
